@@ -19,6 +19,39 @@ CHECKS = {
              "of the module body followed only by the generated trait+impl and the re-export (mod), or equal to the inherent impl's body (impl).",
         note=NOTE, technique="bounded-exhaustive enumeration of programs; token-tree comparison of recorded macro input vs output (identity model)",
         ref="DESIGN.md §3 C02"),
+    "C08": dict(
+        text="Every module item word up to the bound (full 30-symbol alphabet: every visibility and every const/async/unsafe/extern "
+             "qualifier combination on visible and private fns, structs+impls, nested mods, extern blocks, macro_rules, body-less "
+             "declarations, consts with blocks, uses, statics, traits; longer words over a 14-symbol core alphabet) x requested trait "
+             "visibility is expanded by the real macro; the method list of the generated trait must equal the model's filter "
+             "(visible fn with a body, source order) and, where the word can compile, a client in the parent scope and at crate level "
+             "calls every expected method through the re-export.",
+        note=NOTE, technique="bounded-exhaustive enumeration of module bodies; structural view of recorded expansion + executed client vs filter model",
+        ref="DESIGN.md §3 C08"),
+    "C10": dict(
+        text="The complete 1296-point lattice {macro name} x {crate feature} x unimock{absent,true,false} x mock_api x mockall{absent,true,false} "
+             "x export{absent,true,false} x {fn,mod,trait} x {cfg(test), not(test)} is enumerated without pruning; per point the attributes on the "
+             "emitted trait (none / cfg_attr(test,..)-gated / ungated) and, in the compiled crate, the existence of the unimock API / "
+             "`Unimock: Trait` / the mockall struct (runtime booleans from probe code, in a --cfg test and a plain build) must equal the decision table.",
+        note=NOTE + " unimock 0.6.8 / mockall 0.12.1 derives as shipped.",
+        technique="exhaustive enumeration of a finite configuration lattice on the real macro, decision-table model",
+        ref="DESIGN.md §3 C10"),
+    "C17": dict(
+        text="State graph whose nodes are option sets and whose edges append one option: every ordered selection of the six fn/mod options "
+             "and the five trait options (every path into every node), plus all 4^4 value-form combinations {absent,bare,=true,=false} of the "
+             "boolean options x mock_api x ?Send, under both macro names and both crate features, on fn/mod/trait/impl items (~11k invocations). "
+             "Invocations with the same semantic key (derived from the statement only) must expand to identical token trees; options outside "
+             "their documented target must be rejected, documented ones accepted.",
+        note=NOTE, technique="exhaustive path enumeration of the option state graph, metamorphic token-equality oracle on the real macro",
+        ref="DESIGN.md §3 C17"),
+    "C20": dict(
+        text="Every sequence with repetition over 8 representative invocations up to length 3 (quick) / 4 + all 720 permutations of six (thorough) "
+             "is expanded inside one compiler process per history; each invocation's recorded (attr, input, output) at every position must equal "
+             "the record of the same invocation expanded alone. The corpus is also expanded under 6 environments x {alone, 16 concurrent processes}. "
+             "Hash-seed independence is only sampled (R fresh processes) and reported as such.",
+        note=NOTE + " std RandomState seeds are not controlled (sampled, outside the exhaustive claim).",
+        technique="exhaustive enumeration of invocation histories per compiler process, differential oracle (alone vs in-history)",
+        ref="DESIGN.md §3 C20"),
 }
 
 NOT_APPLICABLE = {}
